@@ -163,6 +163,9 @@ std::vector<Tensor> split(const Tensor &x, std::uint32_t dim, std::uint32_t n) {
         "Could not split the axis " << dim << " with size "
         << total << " into " << n << " partitions.");
   }
+  // Validates the shape of each partition in the same way as
+  // operators::Split (in particular, `dim` must be less than Shape::MAX_DEPTH).
+  x.shape().resize_dim(dim, span);
   std::vector<Tensor> ret;
   ret.reserve(n);
   for (std::uint32_t i = 0; i < n; ++i) {
